@@ -4,9 +4,11 @@ Space: every method built from a skeleton of <= 3 (thorough: <= 4) slots over {c
 goto->t, if-eqz->t, packed-switch->{t,u}, sparse-switch->{t,u}} with t <= u over ALL slots (a final return-void is
 appended; switch payloads 4-aligned behind it), without try ranges; plus try-bearing plans: every skeleton of <= 2 slots
 with every table of 0..2 disjoint try ranges over slot intervals [i,j], handler addresses over all slots, typed /
-catch-all / both, shared encoded handler; 3-slot skeletons over a reduced alphabet with every single try range
-(thorough: wider, see space()).  Plus every method of the shipped DEX files (quick: classes.dex), instruction list by
-the independent reader gen/dexread + decoder gen/dalvik.
+catch-all / both, shared encoded handler; 3-slot skeletons over {div-int, return, goto, if, packed-switch} with every
+single try range (thorough: full alphabet x single tries, {div-int, goto, if} x all tables; see space()).
+goto is encoded 10t forward, goto/16 backward, goto/32 to itself, so all three encodings occur.
+Plus every method of the shipped DEX files (quick: classes.dex), instruction list by the independent reader
+gen/dexread + decoder gen/dalvik.
 Each generated method is serialised by gen/dexgen (256 static methods per DEX), loaded with DEX() + Analysis() and the
 basic blocks are compared with ref/cfg.judge_c10:
   blocks contiguous, disjoint, ordered, covering [0, code size) and yielding exactly the instructions there;
@@ -49,9 +51,9 @@ def plans(ctx):
     p.append({"id": "try-n2", "n": 2, "kinds": "PTRXGIKS", "tries": (2, True)})
     if ctx.thorough:
         p.append({"id": "try1-n3", "n": 3, "kinds": "PTRXGIKS", "tries": (1, False)})
-        p.append({"id": "try2-n3-reduced", "n": 3, "kinds": "TRGIK", "tries": (2, True)})
+        p.append({"id": "try2-n3-TGI", "n": 3, "kinds": "TGI", "tries": (2, True)})
     else:
-        p.append({"id": "try1-n3-reduced", "n": 3, "kinds": "TRGIK", "tries": (1, False)})
+        p.append({"id": "try1-n3-TRGIK", "n": 3, "kinds": "TRGIK", "tries": (1, False)})
     return p
 
 
